@@ -336,8 +336,9 @@ pub mod expr {
     impl<'a> FunctionCall<'a> {
         #[verifier::external_body]
         pub fn name(&self) -> (r: &QName<'a>) { unimplemented!() }
+        pub uninterp spec fn spec_args(&self) -> Seq<Argument<'a>>;
         #[verifier::external_body]
-        pub fn args(&self) -> (r: &[Argument<'a>]) { unimplemented!() }
+        pub fn args(&self) -> (r: &[Argument<'a>]) ensures r@ == self.spec_args() { unimplemented!() }
     }
     impl<'a> RelativeLocationPath<'a> {
         #[verifier::external_body]
@@ -611,12 +612,18 @@ pub mod func {
     #[verifier::external_body]
     pub fn table() -> (r: Vec<Entry>) { unimplemented!() }
     impl Entry {
+        // the `args: (min..max)` range of the table entry
+        pub uninterp spec fn spec_min_args(&self) -> usize;
+        pub uninterp spec fn spec_max_args(&self) -> usize;
         #[verifier::external_body]
-        pub fn min_args(&self) -> (r: usize) { unimplemented!() }
+        pub fn min_args(&self) -> (r: usize) ensures r == self.spec_min_args() { unimplemented!() }
         #[verifier::external_body]
-        pub fn max_args(&self) -> (r: usize) { unimplemented!() }
+        pub fn max_args(&self) -> (r: usize) ensures r == self.spec_max_args() { unimplemented!() }
+        // calls the library function of the entry: every function of xpath/src/eval/func.rs is verified (units/func_lib.py,
+        // units/func_strings.py) under exactly this precondition -- the number of arguments is within the entry's range
         #[verifier::external_body]
         pub fn exec(&self, args: Vec<model::Value>, node: dom::XmlNode, context: &mut model::Context) -> (r: error::Result<model::Value>)
+            requires self.spec_min_args() <= args@.len() <= self.spec_max_args(),
             ensures same_ctx(*final(context), *old(context)), r is Ok ==> crate::value_is_ordered_set(r->Ok_0),
         { unimplemented!() }
     }
@@ -864,7 +871,9 @@ def build():
         rules=[Rule('R27', r'let entry = table\s*\.iter\(\)\s*\.find\(\|v\| v\.local_part\(\) == local_part && v\.namespace_uri\(\) == uri\.as_deref\(\)\)\s*\.ok_or_else\(\|\| error::Error::NotFoundFunction\(local_part\.to_string\(\)\)\)\?;',
                     'let entry = shim_find_entry(&table, &local_part, &uri)?;', 'iter().find(closure).ok_or_else(closure) over the function table -> shim'),
                Rule('R27', r'Err\(error::Error::InvalidArgumentCount\(local_part\.to_string\(\)\)\)', 'Err(shim_invalid_argument_count(&local_part))', 'String::to_string in an error payload -> shim')],
-        loops={0: dict(invariant=[('C19:ctx', 'same_ctx(*context, *old(context))')])})
+        loops={0: dict(invariant=[('C19:ctx', 'same_ctx(*context, *old(context))'),
+                                  ('C06:one_value_per_argument_so_far', 'args@.len() == __it.index@ && __it.seq().len() == func.spec_args().len()')])})
+    fns['eval_func_expr'].rules.append(Rule('R47', r'for i in func\.args\(\) \{', 'for i in __it: func.args() /*@loop*/ {', 'iterator named so that the invariant can count the arguments evaluated so far'))
     return ENV, fns
 
 
